@@ -323,8 +323,8 @@ def main():
     tempfile.tempdir = None
     history = []
     for i, h in enumerate(ENV.get("history", [])):
-        hp = dict(h["params"], package=f"hist{i}")
-        f, w, e = generate(h["source"], h.get("recursive", False), hp, h.get("route", "api"), False, os.path.join(work, f"hist{i}"))
+        hp = dict(h["params"], package=SPEC["params"].get("package", "gen") if ENV.get("history_same_package") else f"hist{i}")
+        f, w, e = generate(h["source"], h.get("recursive", False), hp, h.get("route", "api"), bool(ENV.get("cache")), os.path.join(work, f"hist{i}"))
         history.append({"files": len(f), "exc": e})
     params = dict(SPEC["params"])
     repeat = ENV.get("repeat", 1)
